@@ -54,6 +54,8 @@ def run(ctx):
         # that depends on what other tasks have already reported) - shared with C01 / C11
         import core
         ctx.guard("core" + tag, core.soundness, ctx, crate, crs, tag)      # see rules/core.py
+        import c04
+        ctx.guard("guarded-index" + tag, c04.guarded_index, ctx, crate, crs, tag)     # a panic under one completion order / on a warm solver is not "the same verdict"
         import c11
         ctx.guard("queued-in-consumer" + tag, c11.queued_in_consumer, ctx, crate, crs, tag)
 
